@@ -2,7 +2,10 @@
 
 Random operation histories (construct / read / assign / mutate-in-place / encode / decode / scribble-the-buffer) over 2-4
 instances of dynamically generated binary (ITCH-style application) and FIX message types are executed on the real library and
-on the Lean heap model (Model/Heap.lean, driver `heap.run`).
+on the Lean heap model (Model/Heap.lean, driver `heap.run`).  Decoded are complete encodings and SHORT frames: `cutbuf b n` makes
+a new buffer of the first n bytes of buffer b (every field / count / element boundary of the frame, and bytes in between); the
+decoded messages' lists are then changed in place and FRESH instances of every class are created and observed (`short-decode`
+histories; model: Model/HeapCut.lean, driver `heapc.run`; Props/C18Short.lean).
 
 * correspondence: after every operation the status (ok / exception class), the value a `read` returned, and for every live
   instance the deep value of all its reads and its encoding are compared between model and implementation;
@@ -429,6 +432,11 @@ class Runner:
             elif kind == 'scribble':
                 b = self.bufs[op[1]]
                 b[:] = b'\xff' * len(b)
+            elif kind == 'cutbuf':
+                # a frame that ends early: a new buffer of the caller holding the first n bytes of buffer b
+                if op[1] >= len(self.bufs):
+                    raise KeyError(op[1])
+                self.bufs.append(bytearray(self.bufs[op[1]][:op[2]]))
             elif kind == 'copy':
                 # obj = read b path_b ; obj[k] = <object read from instance a by path_a>   (FIX: the library copies deeply)
                 fix = lib()[3]
@@ -467,7 +475,7 @@ def op_target(op, n_before):
     k = op[0]
     if k in ('new', 'decode', 'clone'):
         return n_before
-    if k == 'scribble':
+    if k in ('scribble', 'cutbuf'):
         return None
     return op[1]
 
@@ -501,6 +509,9 @@ def model_line(ctx, spec, ops):
         return None
     if has_declared_defaults(spec) and not (HEAPD and model_expressible(spec)):
         return None
+    if any(op[0] == 'cutbuf' for op in ops):
+        # histories that cut buffers: Model/HeapCut.lean (a layer over HeapD, hence over Heap; declared defaults allowed)
+        return f'heapc.run {spec_sx(spec)} {ops_sx(ops)}' if model_expressible(spec) else None
     return f'{"heapd.run" if has_declared_defaults(spec) else "heap.run"} {spec_sx(spec)} {ops_sx(ops)}'
 
 
@@ -952,8 +963,15 @@ def gen_op(rng, r, allow_default_mutation, max_insts):
             return ['append', a, path, elem]
         if c < 0.77:
             return ['encode', a]
-        if c < 0.85:
+        if c < 0.84:
             return ['mkbuf', a]
+        if c < 0.87:
+            # a frame that ends early: the first k bytes of a live buffer
+            live = [i for i, b in enumerate(r.bufs) if len(b) and not all(x == 0xff for x in b)]
+            if not live or len(r.bufs) >= 8:
+                continue
+            bi = rng.choice(live)
+            return ['cutbuf', bi, rng.choice(cut_points(r, bi, is_fix))]
         if c < 0.95:
             if not r.bufs or n >= max_insts:
                 continue
@@ -1038,6 +1056,160 @@ def elem_tree(rng, r, inst, path, obj):
     if kt[0] == 'g':
         return gen_group_tree(rng, spec, kt[2])
     return None
+
+
+def frame_boundaries(spec, c, tree):
+    """binary: the byte offsets of the encoding of message class `c` reading `tree` (Runner.walk of the instance) at which a field,
+    an array count, an array element, a row, a nested record starts — at every nesting level — and its end.  Computed from the schema
+    and the values alone (neither the library nor the model is asked)."""
+    out = {0, 1}
+
+    def rec(c, t, off):
+        vals = {k: v for k, v in t[2:]}
+        for k, f in enumerate(spec[c][2:]):
+            out.add(off)
+            off = fld(f, vals[k], off)
+        return off
+
+    def fld(f, v, off):
+        if f[0] == 'int':
+            return off + f[1]
+        if f[0] == 'recd':
+            return rec(f[1], v, off)
+        off += f[2][0]
+        for x in v[1:]:
+            out.add(off)
+            e = f[1]
+            if e[0] == 'int':
+                off += e[1]
+            elif e[0] == 'recd':
+                off = rec(e[1], x, off)
+            else:
+                out.add(off + e[2][0])
+                off += e[2][0] + e[1][1] * (len(x) - 1)
+        out.add(off)
+        return off
+    end = rec(c, tree, 1)
+    out.add(end)
+    return sorted(out), end
+
+
+def cut_points(r, bi, is_fix):
+    """where buffer `bi` may be cut.  Binary: every boundary of its frame (when the buffer is the encoding of a live instance:
+    from the schema and that instance's reads), one byte before / after a boundary, any byte.  FIX: after a SOH (a shorter,
+    well-formed field sequence); cuts inside a field are malformed text, outside what is compared."""
+    buf = bytes(r.bufs[bi])
+    if is_fix:
+        return sorted({0} | {i + 1 for i, x in enumerate(buf) if x == 1})
+    pts = set(range(len(buf) + 1)) if len(buf) <= 12 else {0, 1, len(buf) - 1}
+    for i, obj in enumerate(r.insts):
+        try:
+            v = r.view(i)
+            if v[2] != buf:
+                continue
+            bs, end = frame_boundaries(r.w.spec, r.w.cid[type(obj)], v[1])
+            if end == len(buf):
+                pts |= set(bs) | {b + d for b in bs for d in (-1, 1) if 0 <= b + d <= len(buf)}
+                break
+        except Exception:  # noqa  (a value the layout walk does not know: any byte then)
+            continue
+    else:
+        pts |= set(range(len(buf) + 1))
+    return sorted(pts)
+
+
+def boundary_points(r, bi, is_fix):
+    """the boundaries proper (no neighbours): what the short-decode histories go through first"""
+    buf = bytes(r.bufs[bi])
+    if is_fix:
+        return cut_points(r, bi, True)
+    for i, obj in enumerate(r.insts):
+        try:
+            v = r.view(i)
+            if v[2] == buf:
+                bs, end = frame_boundaries(r.w.spec, r.w.cid[type(obj)], v[1])
+                if end == len(buf):
+                    return bs
+        except Exception:  # noqa
+            continue
+    return list(range(len(buf) + 1))
+
+
+def gen_short_history(rng, spec, world, todo=None):
+    """SHORT-DECODE history: an instance is built and filled, encoded into a buffer; then, for up to 6 cut points of that frame
+    (`todo`: boundaries of this world's frame not yet visited — shared by the histories of one world so that together they visit
+    every one): cut the buffer there, decode the short frame, change the decoded message's lists in place (append / item
+    assignment, also one level down), then create FRESH instances — which the oracle compares with pristine ones, as it
+    compares every other live instance with what it read before — and decode the same short frame once more."""
+    reset_globals()
+    world.reset_defaults()
+    r = Runner(world)
+    ops = []
+    is_fix = any(d[0] == 'fmsg' for d in spec)
+    fixlib = lib()[3]
+
+    def do(op):
+        st = r.apply(op)
+        ops.append(op)
+        return st[0]
+    tops = world.top_classes()
+    if todo is not None:
+        # the same filled instance and frame as in the previous short-decode history of this world: go on with its boundaries
+        for op in todo[0]:
+            do(op)
+        c0 = ops[0][1]
+    else:
+        c0 = rng.choice(tops)
+        do(['new', c0])
+        do(['new', rng.choice(tops)])
+        for _ in range(rng.randint(3, 10)):
+            op = gen_op(rng, r, False, 2)
+            if op[0] in ('mkbuf', 'cutbuf', 'scribble', 'decode', 'clone'):
+                continue
+            do(op)
+        if do(['mkbuf', 0]) != 'ok':
+            return ops, None
+    src = len(r.bufs) - 1
+    if todo is None:
+        todo = (list(ops), list(boundary_points(r, src, is_fix)))
+    pending = todo[1]
+    rng.shuffle(pending)
+    cuts = [pending.pop() for _ in range(min(6, len(pending)))]
+    allp = cut_points(r, src, is_fix)
+    while len(cuts) < 4:
+        cuts.append(rng.choice(allp))
+    for n in cuts:
+        if do(['cutbuf', src, n]) != 'ok':
+            continue
+        b = len(r.bufs) - 1
+        if do(['decode', c0, b]) != 'ok':
+            continue
+        j = len(r.insts) - 1
+        # in-place changes of the lists the decoded message holds
+        ns = []
+        nodes(r, r.insts[j], [], 6, ns)
+        lists = [(p, o) for p, o in ns if isinstance(o, (list, fixlib.GroupContainer))]
+        rng.shuffle(lists)
+        for path, obj in lists[:rng.choice([1, 2, 2, 3])]:
+            elem = elem_tree(rng, r, r.insts[j], path, obj)
+            if elem is None:
+                continue
+            lst = r.the_list(obj)
+            if lst and rng.random() < 0.25:
+                do(['setidx', j, path, rng.randrange(len(lst)), elem])
+            else:
+                do(['append', j, path, elem])
+        # fresh objects, afterwards
+        do(['new', rng.choice(tops)])
+        u = rng.random()
+        if u < 0.3:
+            do(['encode', len(r.insts) - 1])
+        elif u < 0.5 and len(r.insts) < 16:
+            do(['decode', c0, b])
+    for c in tops:
+        if len(r.insts) < 18:
+            do(['new', c])
+    return ops, todo
 
 
 def gen_history(rng, spec, world, length, allow_default_mutation):
@@ -1227,13 +1399,18 @@ def run(ctx):
     quick = ctx.tier == 'quick'
     n_worlds = {'bin': 70 if quick else 420, 'bin-defaults': 45 if quick else 300, 'fix': 50 if quick else 320}
     per_world = 4 if quick else 6
+    n_short = 2 if quick else 4          # short-decode histories per world (fewer when the frame has few boundaries)
     ctx.cov['rule'] = ('histories of 12-40 operations (new / read / assign / append / setidx / encode / mkbuf / decode / scribble; FIX also '
                        'copy = assign to a segment of one instance an object read from another instance, and clone = a message built '
                        'from from_value copies of another message\'s segments) over 2-5 '
                        'instances of generated binary message types (records with int fields, arrays of ints and of records, nested '
                        'records; ITCH-style application with its own registry) and FIX message types (header/body/trailer segments, '
                        'repeating groups, nested groups); operations are chosen by looking at the live instances; a quarter of the binary '
-                       'histories may mutate a list obtained from a never-assigned array field; distinct = distinct (schema, history)')
+                       'histories may mutate a list obtained from a never-assigned array field; `cutbuf b n` = a new buffer of the first '
+                       'n bytes of buffer b (a frame that ends early), decoded like any other buffer; short-decode histories (per world: an '
+                       'instance filled, encoded, the frame cut at every field / count / element / nested-record boundary in turn - FIX: after '
+                       'every SOH -, each short frame decoded, the decoded message\'s lists changed in place, fresh instances of every class '
+                       'created afterwards); distinct = distinct (schema, history)')
     mode = array_default_mode()
     ctx.notes.append(
         f'library probed: a never-assigned array field reads as {"the one class-level list (code as it is)" if mode == "shared" else "a new list on every read (repaired get_field_value)"}; '
@@ -1288,6 +1465,22 @@ def run(ctx):
                 check_history(ctx, spec, ops, proto, world, defer=deferred)
                 if len(deferred) >= 60:
                     flush_model(ctx, deferred)
+            # ---- short frames: decode at every boundary, mutate the decoded lists in place, then fresh objects
+            todo = None
+            for _h in range(n_short):
+                try:
+                    ops, todo = gen_short_history(rng, spec, world, todo)
+                except Exception as e:  # noqa
+                    ctx.violation(f'generating a short-decode history raised {type(e).__name__}: {e}',
+                                  {'kind': 'harness-exception', 'proto': proto, 'spec': spec_sx(spec), 'ops': '()'})
+                    break
+                ctx.case((spec_sx(spec), ops_sx(ops)), nontrivial=True, sample_every=53)
+                ctx.count(f'{proto}:short-decode-history')
+                check_history(ctx, spec, ops, proto + '-short', world, defer=deferred)
+                if len(deferred) >= 60:
+                    flush_model(ctx, deferred)
+                if todo is None or not todo[1]:
+                    break           # every boundary of this world's frame was visited
     flush_model(ctx, deferred)
     reset_globals()
 
